@@ -33,6 +33,12 @@ def gen(rng, tier):
             ops = ["I:" + hexs(k1), "U:" + hexs(m1[:5]), "U:" + hexs(m1[5:]), "F", "I:" + hexs(k1), "U:" + hexs(m2), "F", "I:" + hexs(k2), "U:" + hexs(m2), "F"]
             cases.append(Case("hmachist %s %s" % (t, " ".join(ops)), "hmachist %s rekey k%s" % (t, "<B" if kl < b else ("=B" if kl == b else ">B")), True,
                               spec="spec.hmaccat %s %s:%s %s:%s %s:%s" % (t, hexs(k1), hexs(m1), hexs(k1), hexs(m2), hexs(k2), hexs(m2))))
+        # save / restore loops: a context is assigned onto one that already holds pads of the same size
+        for kl in [1, b, b + 1]:
+            k1 = contents(rng, kl); m1 = contents(rng, 10); m2 = contents(rng, 33); m3 = contents(rng, b)
+            ops = ["I:" + hexs(k1), "U:" + hexs(m1), "V", "U:" + hexs(m2), "F", "R", "U:" + hexs(m3), "F", "R", "K", "U:" + hexs(m2), "F"]
+            cases.append(Case("hmachist %s %s" % (t, " ".join(ops)), "hmachist %s save-restore k%s" % (t, "<B" if kl < b else ("=B" if kl == b else ">B")), True,
+                              spec="spec.hmaccat %s %s:%s %s:%s %s:%s" % (t, hexs(k1), hexs(m1 + m2), hexs(k1), hexs(m1 + m3), hexs(k1), hexs(m1 + m2))))
         for (pl, sl, c, dk) in [(0, 16, 1, d), (5, 16, 2, d + 1), (b, 20, 3, 2 * d), (b + 1, 16, 2, 1), (9, 70, 4, d - 1)]:
             P = contents(rng, pl); S = contents(rng, sl)
             cases.append(Case("pbkdf2 %s %s %s %d %d" % (t, hexs(P), hexs(S), c, dk), "pbkdf2 %s P%s c=%d" % (t, "<B" if pl < b else ("=B" if pl == b else ">B"), c), True,
